@@ -176,7 +176,7 @@ def gen(rng, ctx):
         ins = [x for x in alln if G.cd_types(cd)[x] == "input"]
         m = {}
         for j, x in enumerate(rng.sample(ins, min(len(ins), rng.randint(1, 2)))):
-            y = rng.choice([z for z in alln if z != x])
+            y = rng.choice([z for z in alln if z != x] or ["g"])
             nn = rng.choice([f"inv{j}_{y}", f"inv{rng.randint(0, 2)}_{y}", f"inv{j}"])
             if nn not in alln and nn not in m.values():
                 m[x] = nn
